@@ -1,8 +1,8 @@
 #!/bin/bash
-# tools/confirm_seed.sh <CNN> <k> : independently confirm a seeded change from /tmp/seed/<CNN>/<k> in a scratch worktree of
+# tools/confirm_seed.sh <CNN> <k> [source root=/tmp/seed] [name in seeded/ = k] : independently confirm a seeded change from /tmp/seed/<CNN>/<k> in a scratch worktree of
 # /repo HEAD: (1) patch applies, (2) full ICU suite and pinned baseline still pass, (3) demo fails with / passes without.
 # On success copies it to /verif/seeded/<CNN>-<k>/ with the confirmation log in meta.json ("confirmed" block).
-PID="$1"; K="$2"; SRC="/tmp/seed/$PID/$K"; ICU=/root/miniconda/pkgs/icu-73.1-h6a678d5_0/lib
+PID="$1"; K="$2"; ROOT="${3:-/tmp/seed}"; DK="${4:-$K}"; SRC="$ROOT/$PID/$K"; ICU=/root/miniconda/pkgs/icu-73.1-h6a678d5_0/lib
 WT="$(mktemp -d /tmp/cs.XXXXXX)"; rmdir "$WT"
 git -C /repo worktree add --detach "$WT" HEAD >/dev/null 2>&1 || { echo "worktree failed"; exit 2; }
 cleanup() { git -C /repo worktree remove --force "$WT" >/dev/null 2>&1; rm -rf "$WT"; }
@@ -22,7 +22,7 @@ echo "$full" | grep -Eq "[0-9] (failed|error)" && ok=0
 echo "$full" | grep -q "10356 passed" || ok=0
 echo "$base" | grep -q "393 passed" || ok=0
 if [ $ok = 1 ]; then
-  D="/verif/seeded/$PID-$K"; mkdir -p "$D"; cp "$SRC/patch.diff" "$SRC/demo.py" "$D/"
+  D="/verif/seeded/$PID-$DK"; mkdir -p "$D"; cp "$SRC/patch.diff" "$SRC/demo.py" "$D/"
   python3 - "$SRC/meta.json" "$D/meta.json" "$clean_rc" "$mut_rc" "$full" "$base" "$(git -C /repo rev-parse --short HEAD)" <<'PY'
 import json,sys
 src,dst,c,m,full,base,head=sys.argv[1:]
